@@ -14,6 +14,12 @@ pub enum Kind {
     Step,
     /// request + accept interrupt `vector` at the boundary (no instruction executed)
     Irq(u8),
+    /// a peripheral requests interrupt `vector`; nothing is accepted here (sequences only)
+    Req(u8),
+    /// an instruction boundary: the CPU looks at its pending requests (sequences only)
+    Bound,
+    /// a byte written through `Bus::write` from outside the CPU, as the control socket's `u8:` line does
+    Host(u32, u8),
 }
 
 #[derive(Clone, Debug)]
@@ -67,7 +73,7 @@ impl Case {
     }
     pub fn to_json(&self) -> Value {
         json!({
-            "kind": match self.kind { Kind::Step => json!("step"), Kind::Irq(v) => json!({"irq": v}) },
+            "kind": match self.kind { Kind::Step => json!("step"), Kind::Irq(v) => json!({"irq": v}), Kind::Req(v) => json!({"req": v}), Kind::Bound => json!("bound"), Kind::Host(a, v) => json!({"host": format!("{:06x}={:02x}", a, v)}) },
             "pc": format!("{:06x}", self.pc),
             "code": hex(&self.code[..self.code_len as usize]),
             "er": self.er.iter().map(|x| format!("{:08x}", x)).collect::<Vec<_>>(),
@@ -83,7 +89,18 @@ impl Case {
         let mut c = Case::new(pc, &[]);
         c.code_len = code.len() as u8;
         c.code[..code.len()].copy_from_slice(&code);
-        c.kind = if v["kind"].is_string() { Kind::Step } else { Kind::Irq(v["kind"]["irq"].as_u64()? as u8) };
+        c.kind = if v["kind"] == "bound" {
+            Kind::Bound
+        } else if v["kind"].is_string() {
+            Kind::Step
+        } else if let Some(r) = v["kind"]["req"].as_u64() {
+            Kind::Req(r as u8)
+        } else if let Some(h) = v["kind"]["host"].as_str() {
+            let (a, b) = h.split_once('=')?;
+            Kind::Host(u32::from_str_radix(a, 16).ok()?, u8::from_str_radix(b, 16).ok()?)
+        } else {
+            Kind::Irq(v["kind"]["irq"].as_u64()? as u8)
+        };
         for (k, e) in v["er"].as_array()?.iter().enumerate() {
             c.er[k] = u32::from_str_radix(e.as_str()?, 16).ok()?;
         }
@@ -322,6 +339,10 @@ pub struct Ctx {
     pub unit: String,
     /// keys of known findings that may explain a mismatch for the running property
     pub known_keys: Vec<String>,
+    /// keys of known findings listed for *other* properties: a cross-form sequence may pass through such an
+    /// instruction on its way to this property's form; the explained step is accepted silently (it is neither
+    /// a violation nor a known finding of the property under check) and the lock step continues
+    pub foreign_keys: Vec<String>,
     pub paranoid: bool,
     pub frozen: bool,
     pub stray_detected: bool,
@@ -345,6 +366,14 @@ pub struct Ctx {
     pub strict_odd: bool,
     /// attached to sequence counterexamples: how the generating unit can re-create this very program (replay with the unit's own oracles)
     pub seq_tag: Option<Value>,
+    /// reference model of the interrupt controller's pending FIFO (sequences with Req / Bound actions)
+    pub refq: Vec<u8>,
+    /// compare the real pending FIFO with `refq` after every action of a sequence
+    pub track_queue: bool,
+    /// the case's PC is odd on purpose: the instruction is the one at PC & !1, bit 0 of the resulting PC is
+    /// not compared, and an error outcome is accepted as well (the properties leave odd PCs open: both the
+    /// manual's "bit 0 is ignored" and a rejection satisfy them; executing a *different* instruction does not)
+    pub odd_pc: bool,
 }
 
 /// Built-in self-test of the comparison: perturb the reference for selected cases and require a mismatch.
@@ -368,6 +397,7 @@ impl Ctx {
             st: Stats::new(),
             unit: String::new(),
             known_keys: Vec::new(),
+            foreign_keys: Vec::new(),
             paranoid: false,
             frozen: false,
             stray_detected: false,
@@ -385,6 +415,9 @@ impl Ctx {
             panic_only: false,
             strict_odd: false,
             seq_tag: None,
+            refq: Vec::new(),
+            track_queue: false,
+            odd_pc: false,
         }
     }
 
@@ -418,21 +451,39 @@ impl Ctx {
         let mut d2 = *d;
         d2.strict_odd = self.strict_odd;
         let d = &d2;
-        let rin = RefIn { er: c.er, ccr: c.ccr, pc: c.pc };
+        let rin = RefIn { er: c.er, ccr: c.ccr, pc: if self.odd_pc { c.pc & !1 } else { c.pc } };
+        let c_pc = rin.pc;
         match c.kind {
             Kind::Irq(v) => {
                 let mem = RealMem(&self.m);
                 (Decoded::Undefined, sem::interrupt_entry(&rin, &mem, v as u32))
             }
+            Kind::Req(_) => (Decoded::Undefined, RefOut::start(&rin)),
+            Kind::Bound => {
+                if c.ccr & 0x80 == 0 && !self.refq.is_empty() {
+                    let mem = RealMem(&self.m);
+                    (Decoded::Undefined, sem::interrupt_entry(&rin, &mem, self.refq[0] as u32))
+                } else {
+                    (Decoded::Undefined, RefOut::start(&rin))
+                }
+            }
+            Kind::Host(a, v) => {
+                let mut o = RefOut::start(&rin);
+                if sem::mapped(a) {
+                    o.writes.push(sem::Wr { addr: a, val: v, care: true });
+                    o.taken = true;
+                }
+                (Decoded::Undefined, o)
+            }
             Kind::Step => {
                 // sticky code that no patch of this case can have touched: reuse the decode
-                let key = (c.pc, self.m.sticky_gen);
+                let key = (c_pc, self.m.sticky_gen);
                 let dec = if c.code_sticky && c.patches.n == 0 && c.image.is_empty() && key == self.last_key {
                     self.last_dec
                 } else {
                     let mut bytes = [0u8; 12];
                     for k in 0..12u32 {
-                        bytes[k as usize] = self.m.peek(c.pc.wrapping_add(k)).unwrap_or(0);
+                        bytes[k as usize] = self.m.peek(c_pc.wrapping_add(k)).unwrap_or(0);
                     }
                     let dd = if bytes == self.last_code {
                         self.last_dec
@@ -475,6 +526,12 @@ impl Ctx {
                 cpu.vh_request_interrupt(v);
                 cpu.vh_try_interrupt().map(|_| 0u8)
             }
+            Kind::Req(v) => {
+                cpu.vh_request_interrupt(v);
+                Ok(0u8)
+            }
+            Kind::Bound => cpu.vh_try_interrupt().map(|_| 0u8),
+            Kind::Host(a, v) => cpu.bus.write(a, v).map(|_| 0u8),
         }));
         crate::cpu::verif_hooks::bus_write_log_take(&mut self.wlog);
         crate::cpu::verif_hooks::bus_write_log_enable(false);
@@ -527,10 +584,13 @@ impl Ctx {
             (Class::Err, Actual::Err(_)) => None,
             (Class::Err, Actual::Ok(_)) => Some(Diff { what: format!("expected an error ({}), instruction executed", ro.note) }),
             (_, Actual::Panic(p)) => Some(Diff { what: format!("emulator panicked: {}", p) }),
+            (Class::Ok, Actual::Err(_)) if self.odd_pc => None,
             (Class::Ok, Actual::Err(e)) => Some(Diff { what: format!("expected execution, got error: {}", e) }),
             (Class::Ok, Actual::Ok(states)) => {
                 let cpu = &self.m.cpu;
-                if cpu.vh_pc() != ro.pc {
+                if self.odd_pc && (cpu.vh_pc() | 1) == (ro.pc | 1) {
+                    // bit 0 of PC is not compared
+                } else if cpu.vh_pc() != ro.pc {
                     return Some(Diff { what: format!("pc: expected {:06x}, got {:06x}", ro.pc, cpu.vh_pc()) });
                 }
                 for k in 0..8 {
@@ -889,6 +949,50 @@ pub enum Act {
     Step,
     /// request interrupt `v` and let the CPU try to accept it (nothing else happens at this boundary)
     Irq(u8),
+    /// the harness first loads `len` code bytes at `at` (or at the current PC) and sets PC there, then steps
+    Exec { code: [u8; 10], len: u8, at: Option<u32> },
+    /// a peripheral requests interrupt `v` (FIFO append); nothing is accepted at this point
+    Req(u8),
+    /// an instruction boundary without an instruction: the CPU looks at its pending requests
+    Bound,
+    /// one byte written through `Bus::write` from outside the CPU (the control socket's `u8:` line)
+    Host(u32, u8),
+}
+
+impl Act {
+    pub fn exec(code: &[u8], at: Option<u32>) -> Act {
+        let mut c = [0u8; 10];
+        c[..code.len()].copy_from_slice(code);
+        Act::Exec { code: c, len: code.len() as u8, at }
+    }
+    /// text form used in counterexample files (`<pc>:<this>`); `parse` is its inverse
+    pub fn text(&self) -> String {
+        match *self {
+            Act::Step => "step".into(),
+            Act::Irq(v) => format!("irq{}", v),
+            Act::Exec { code, len, .. } => format!("exec{}", hex(&code[..len as usize])),
+            Act::Req(v) => format!("req{}", v),
+            Act::Bound => "bound".into(),
+            Act::Host(a, v) => format!("host{:06x}={:02x}", a, v),
+        }
+    }
+    pub fn parse(entry: &str) -> Act {
+        let (pc, a) = entry.split_once(':').unwrap_or(("0", entry));
+        if let Some(v) = a.strip_prefix("irq") {
+            Act::Irq(v.parse().unwrap_or(0))
+        } else if let Some(h) = a.strip_prefix("exec") {
+            Act::exec(&unhex(h).unwrap_or_default(), u32::from_str_radix(pc, 16).ok())
+        } else if let Some(v) = a.strip_prefix("req") {
+            Act::Req(v.parse().unwrap_or(0))
+        } else if a == "bound" {
+            Act::Bound
+        } else if let Some(h) = a.strip_prefix("host") {
+            let (x, y) = h.split_once('=').unwrap_or(("0", "0"));
+            Act::Host(u32::from_str_radix(x, 16).unwrap_or(0), u8::from_str_radix(y, 16).unwrap_or(0))
+        } else {
+            Act::Step
+        }
+    }
 }
 
 /// Observation handed to the per-step callback of `run_seq`.
@@ -923,6 +1027,9 @@ impl Ctx {
         if self.st.violations.len() < MAX_VIOLATIONS_KEPT {
             let mut case = init.to_json();
             case["sequence"] = json!(trace);
+            if self.track_queue {
+                case["track_queue"] = json!(true);
+            }
             if let Some(t) = &self.seq_tag {
                 case["regen"] = t.clone();
             }
@@ -971,10 +1078,18 @@ impl Ctx {
             cpu.vh_set_ccr(init.ccr);
             cpu.vh_clear_pending_interrupts();
         }
+        self.refq.clear();
         let mut trace: Vec<String> = Vec::new();
         let mut act = first;
         let mut done = 0usize;
         while done < max_actions {
+            if let Act::Exec { code, len, at } = act {
+                if let Some(p) = at {
+                    self.m.cpu.vh_set_pc(p);
+                }
+                let p = self.m.cpu.vh_pc();
+                self.m.poke_bytes(p, &code[..len as usize]);
+            }
             let pre_pc = self.m.cpu.vh_pc();
             let pre_er = self.m.cpu.er;
             let pre_ccr = self.m.cpu.vh_ccr();
@@ -984,28 +1099,84 @@ impl Ctx {
             c.er = pre_er;
             c.ccr = pre_ccr;
             c.kind = match act {
-                Act::Step => Kind::Step,
+                Act::Step | Act::Exec { .. } => Kind::Step,
                 Act::Irq(v) => Kind::Irq(v),
+                Act::Req(v) => Kind::Req(v),
+                Act::Bound => Kind::Bound,
+                Act::Host(a, v) => Kind::Host(a, v),
             };
             // force a fresh decode: code may differ from the previous sequence at the same PC
             self.last_key = (0xffff_ffff, 0);
-            let (dec, ro) = self.reference(&c, &none);
+            let (dec, mut ro) = self.reference(&c, &none);
             for w in ro.writes.as_slice() {
                 self.m.expect_write_pre(w.addr);
             }
             let actual = self.execute(&c);
             let mut diff = self.compare(&c, &ro, &actual);
+            // reference model of the pending requests (a multiset: the properties do not fix which of several
+            // pending requests is accepted first, only that exactly one is, through its own vector)
+            match c.kind {
+                Kind::Irq(v) => {
+                    self.refq.clear();
+                    if c.ccr & 0x80 != 0 {
+                        self.refq.push(v);
+                    }
+                }
+                Kind::Req(v) => self.refq.push(v),
+                Kind::Bound => {
+                    if c.ccr & 0x80 == 0 && !self.refq.is_empty() {
+                        let mut real = self.m.cpu.vh_pending_interrupts();
+                        real.sort();
+                        let mut cands = self.refq.clone();
+                        cands.dedup();
+                        let mut chosen: Option<usize> = None;
+                        for v in cands {
+                            let k = self.refq.iter().position(|&x| x == v).unwrap();
+                            let mut rest = self.refq.clone();
+                            rest.remove(k);
+                            rest.sort();
+                            let ro_v = {
+                                let mem = RealMem(&self.m);
+                                sem::interrupt_entry(&RefIn { er: c.er, ccr: c.ccr, pc: c.pc }, &mem, v as u32)
+                            };
+                            let fits = self.compare(&c, &ro_v, &actual).is_none();
+                            if fits && (!self.track_queue || rest == real) {
+                                chosen = Some(k);
+                                ro = ro_v;
+                                diff = None;
+                                break;
+                            }
+                        }
+                        self.refq.remove(chosen.unwrap_or(0));
+                    }
+                }
+                _ => {}
+            }
+            if diff.is_none() && self.track_queue && ro.class == Class::Ok && !self.panic_only && !self.cycles_only {
+                let mut real = self.m.cpu.vh_pending_interrupts();
+                real.sort();
+                let mut want = self.refq.clone();
+                want.sort();
+                if real != want {
+                    diff = Some(Diff { what: format!("pending interrupt requests: expected {:?} (in any order), got {:?}", want, real) });
+                }
+            }
             let mut ro_eff = ro.clone();
-            if diff.is_some() && !self.known_keys.is_empty() {
-                let keys = self.known_keys.clone();
-                for k in keys.iter() {
+            if diff.is_some() && !(self.known_keys.is_empty() && self.foreign_keys.is_empty()) && c.kind == Kind::Step {
+                let mut keys = self.known_keys.clone();
+                let own = keys.len();
+                keys.extend(self.foreign_keys.iter().cloned());
+                for (ki, k) in keys.iter().enumerate() {
                     let d = Defects::from_keys(&[k.as_str()]);
                     if d.fetch_unwrap {
                         continue;
                     }
                     let (_, ro2) = self.reference(&c, &d);
                     if self.compare(&c, &ro2, &actual).is_none() {
-                        if !self.frozen {
+                        if !self.frozen && ki >= own {
+                            *self.st.notes.entry(format!("steps explained by a known finding of another property ({})", k)).or_insert(0) += 1;
+                        }
+                        if !self.frozen && ki < own {
                             let first = json!({"case": c.to_json(), "what": diff.as_ref().unwrap().what});
                             let e = self.st.known.entry(k.clone()).or_insert((0, first));
                             e.0 += 1;
@@ -1019,10 +1190,7 @@ impl Ctx {
                     }
                 }
             }
-            trace.push(match act {
-                Act::Step => format!("{:06x}:step", pre_pc),
-                Act::Irq(v) => format!("{:06x}:irq{}", pre_pc, v),
-            });
+            trace.push(format!("{:06x}:{}", pre_pc, act.text()));
             if !self.frozen {
                 self.st.cases += 1;
                 match ro.class {
@@ -1063,9 +1231,32 @@ impl Ctx {
             // stray writes (exact, through the Bus::write log)
             let open = ro_eff.class == Class::Any && ro_eff.mem_open;
             let mut stray: Option<(u32, u8, u8)> = None;
+            // an open outcome (class Any) is not compared, so a defect model had no chance to explain it above:
+            // its write set still counts when the step's writes are attributed
+            let mut alt_writes: Vec<u32> = Vec::new();
+            if ro_eff.class == Class::Any && c.kind == Kind::Step && !(self.known_keys.is_empty() && self.foreign_keys.is_empty()) {
+                let mut keys = self.known_keys.clone();
+                keys.extend(self.foreign_keys.iter().cloned());
+                for k in keys.iter() {
+                    let d = Defects::from_keys(&[k.as_str()]);
+                    if d.fetch_unwrap {
+                        continue;
+                    }
+                    let (_, ro2) = self.reference(&c, &d);
+                    for w in ro2.writes.as_slice() {
+                        alt_writes.push(w.addr);
+                    }
+                }
+            }
             for k in 0..self.wlog.len() {
                 let a = self.wlog[k];
                 if ro_eff.writes.as_slice().iter().any(|w| w.addr == a) {
+                    continue;
+                }
+                if alt_writes.contains(&a) {
+                    // written under a listed defect model: accept the content and restore it at the end
+                    self.m.mark_dirty(a);
+                    self.m.accept(a);
                     continue;
                 }
                 let got = self.m.peek(a);
